@@ -772,3 +772,6 @@ PROPS["C15"]["scope"] += ("; mpsc send edges (V): the message carries the sender
 PROPS["C15"]["not_decided"] = ["the per-primitive edges in mutex/condvar/once/atomics/spawn/join (barrier, semaphore batches and both sides of mpsc are decided)",
                                "replay restricted to a target clock"]
 PROPS["C02"]["scope"] += "; mpsc send / try_send (V): likewise"
+
+PROPS["C11"]["technique"] = ("contract-based deductive verification: Verus (requires/ensures/loop invariants, lemma) on the bodies of PctScheduler::new_execution / "
+                             "next_task extracted mechanically from /repo on every run; no Kani part")
